@@ -335,6 +335,13 @@ def _mrg_pass(u, roles, needs_object, R):
             pc = None
             for a in c['args'][1:]:
                 a0 = strip_casts(a)
+                if a0.get('k') == 'ref' and a0.get('dk') == 'local':
+                    # a local that only ever holds the key of one patch member
+                    srcs = [strip_casts(d['init']) for d in fn.locals() if d['d'] == a0['d'] and 'init' in d]
+                    srcs += [strip_casts(x['r']) for x in assignments(fn) if is_ref(x['l']) and strip_casts(x['l'])['d'] == a0['d']]
+                    if srcs and all(x.get('k') == 'mem' and x['f'] == 'string' for x in srcs) and \
+                            len({expr_str(x) for x in srcs}) == 1:
+                        a0 = srcs[0]
                 if a0.get('k') == 'mem' and a0['f'] == 'string' and is_ref(a0['b']) and var.get(strip_casts(a0['b'])['d']) == 'P':
                     pc = strip_casts(a0['b'])
             if pc is None:
